@@ -14,7 +14,7 @@ EXTENDS Naturals, Sequences, FiniteSets
 
 X(n) == [k |-> "x", v |-> n, m |-> <<>>]
 D(n) == [k |-> "d", v |-> n, m |-> <<>>]
-Any  == [k |-> "any", v |-> 0, m |-> <<>>]
+AnyV  == [k |-> "any", v |-> 0, m |-> <<>>]
 M(f) == [k |-> "m", v |-> 0, m |-> f]
 EmptyMap == M(<<>>)
 
@@ -35,13 +35,13 @@ AllDefault(v) ==
 (*  - an explicit leaf of s wins                                                          (precedence)    *)
 (*  - a default-marked leaf of s fills a gap or replaces another default, never anything else (marker)    *)
 (*  - a map of s over a leaf of t: the later source wins; if that map is merely defaults and the leaf    *)
-(*    explicit, the statement is silent (Any)                                                            *)
+(*    explicit, the statement is silent (AnyV)                                                            *)
 RECURSIVE Merge(_, _)
 Merge1(tv, sv) ==
     IF IsMap(sv) THEN
         IF IsMap(tv) THEN M(Merge(tv.m, sv.m))
-        ELSE IF tv.k = "any" THEN Any
-        ELSE IF tv.k = "x" /\ AllDefault(sv) THEN Any
+        ELSE IF tv.k = "any" THEN AnyV
+        ELSE IF tv.k = "x" /\ AllDefault(sv) THEN AnyV
         ELSE sv
     ELSE IF sv.k = "d" THEN (IF tv.k = "d" THEN sv ELSE tv)
     ELSE sv
@@ -93,15 +93,15 @@ ClauseAt(s, p) ==
 (* ---- option groups (C++ language-standard shorthands) ----                                             *)
 (* opts, block: map contents; mentioned: option keys that a non-built-in source mentions.  Every option    *)
 (* of the documented block is set as a unit; whether an option the user gave explicitly survives is not    *)
-(* fixed by the statement (Any).                                                                          *)
+(* fixed by the statement (AnyV).                                                                          *)
 GroupApply(opts, block, mentioned) ==
     [key \in (DOMAIN opts) \cup (DOMAIN block) |->
         IF key \notin DOMAIN block THEN opts[key]
-        ELSE IF key \in mentioned THEN Any
+        ELSE IF key \in mentioned THEN AnyV
         ELSE block[key]]
 (* the stored configuration may or may not show the group (it is the created language that reports it)    *)
 GroupLoose(opts, block) ==
-    [key \in (DOMAIN opts) \cup (DOMAIN block) |-> IF key \in DOMAIN block THEN Any ELSE opts[key]]
+    [key \in (DOMAIN opts) \cup (DOMAIN block) |-> IF key \in DOMAIN block THEN AnyV ELSE opts[key]]
 
 (* ---- clauses of the statement, stated independently of Merge (sanity theorems checked by TLC) ----     *)
 RECURSIVE LeafPaths(_, _)
@@ -110,7 +110,7 @@ LeafPaths(v, p) ==
 Get(v, p) == Lookup(v, p, 1)[1]
 Defined(v, p) == Lookup(v, p, 1)[2] = Len(p)
 
-(* for a merge r = Merge(t, s) without Any in r at the inspected place:                                   *)
+(* for a merge r = Merge(t, s) without AnyV in r at the inspected place:                                   *)
 ClauseKeepsUnmentioned(t, s) ==
     \A key \in DOMAIN t : key \notin DOMAIN s => Merge(t, s)[key] = t[key]
 ClauseExplicitWins(t, s) ==
